@@ -401,6 +401,25 @@ def _run(chk, wd, proved):
     # arguments of another family: the model must say "raises" exactly when the code does
     add_payload(events.Tick5Event, '(AGroup %s)' % tlit('g'), events.Event(), ('mismatch',))
 
+    # ---------------- C2. PROCESS_LOG through the real output dispatcher: one notification per non-empty read
+    for channel in ('stdout', 'stderr'):
+        for enabled in (True, False):
+            for grp in ('grp', None):
+                reads = [rng.choice(DATA_BYTES) for _ in range(6)] + [b'', b'tail']
+                res = I.run_log_events(reads, channel=channel, enabled=enabled, gname=grp)
+                cname = 'ProcessLogStdoutEvent' if channel == 'stdout' else 'ProcessLogStderrEvent'
+                chk.dist('log:%s:%s' % (channel, 'enabled' if enabled else 'disabled'))
+                for r, evs in zip(reads, res):
+                    want_n = 1 if (enabled and r) else 0
+                    ok = len(evs) == want_n and all(cn == cname and d == r for cn, _pl, d in evs)
+                    if not ok:
+                        chk.violation({'kind': 'PROCESS_LOG notifications are not one-to-one with the output read from the process',
+                                       'channel': channel, 'events_enabled': enabled, 'read': list(r),
+                                       'notifications': [[cn, pl] for cn, pl, _ in evs]})
+                    for cn, pl, d in evs:
+                        pay_c.append('(%s, (ALog %s %s %s %s), %s)' % (cn, tlit('worker'), ogroup(grp), zlit(3131), pdata_term(d), otext(pl)))
+                        pay_m.append((cn, 'worker', grp, 3131, list(d)))
+
     # ---------------- D. _eventEnvelope directly, E. pool dispatch, bytes on the listener's stdin
     env_c, env_m = part('envelope', 'text * text * evclass * Z * Z * text * text', 'check_envelope')
     dis_c, dis_m = part('dispatch', 'text * text * Z * Z * evclass * evargs * option bytes', 'check_dispatch')
@@ -568,12 +587,15 @@ def _run(chk, wd, proved):
     tick_c, tick_m = part('ticks', 'Z * list Z * list (list (evclass * Z))', 'check_ticks')
     tick_periods = [(c.__name__, c.period) for c in events.TICK_EVENTS]
 
-    def add_ticks(U, rs, as_int=False):
+    def add_ticks(U, rs, as_int=False, loop=False):
         if as_int and U == 1:
             readings = list(rs)
         else:
             readings = [float(r) / U for r in rs]
-        out = I.run_ticks(readings)
+        # loop=True: the readings are what time.time() returns in successive passes of the real runforever
+        out = I.run_loop_ticks(readings) if loop else I.run_ticks(readings)
+        if loop:
+            chk.dist('ticks:through-runforever')
         tick_c.append('(%s, %s, %s)' % (zlit(U), zlist(rs), coq_list(coq_list('(%s, %s)' % (cn, zlit(w)) for cn, w, _ in p) for p in out)))
         tick_m.append((U, list(rs)))
         # independent monitor: TICK_p at a pass <=> slice(floor seconds) differs from the previous pass
@@ -628,6 +650,16 @@ def _run(chk, wd, proved):
                 d = rng.randrange(-10 ** 6, 10 ** 6)
             rs.append(rs[-1] + d)
         add_ticks(U, rs)
+
+    for b in bases[:6]:
+        for ds in itertools.product([-61, 0, 1, 5, 61, 3601], repeat=2):
+            add_ticks(1, [b, b + ds[0], b + ds[0] + ds[1]], loop=True)
+    for _ in range(40 if quick else 600):
+        U = rng.choice([1, 2])
+        rs = [rng.randrange(0, 8000) * U]
+        for _ in range(rng.randrange(1, 8)):
+            rs.append(rs[-1] + rng.choice([0, 1, U, 5 * U, 61 * U, -7 * U, 3600 * U, -3601 * U]))
+        add_ticks(U, rs, loop=True)
 
     # ---------------- G. change_state / finish on real Subprocess objects
     proc_c, proc_m = part('proc', 'proc * pstep * (bool * Z * Z * Z) * list (evclass * option text)', 'check_proc')
